@@ -1666,10 +1666,10 @@ def obligations(tier: str) -> List[Ob]:
         if thorough:
             obs.append(k6_ob('K6:act:chain:%d' % i, ss, ('case-conf',), all_p[1:], all_k, all_links, 3600))
         else:
-            obs.append(k6_ob('K6:act:chain:%d' % i, ss, ('case-conf',), ('setup', 'before-assert'), chain_k, all_links, 1800))
+            obs.append(k6_ob('K6:act:chain:%d' % i, ss, ('case-conf',), ('setup',), chain_k, all_links, 900))
     ways_k = all_k if thorough else [kl[x] for x in ('string', 'list', 'path-result', 'text-matcher', 'program')]
     for i, ss in enumerate(_chunks(all_s, 8)):
-        obs.append(k6_ob('K6:act:ways:%d' % i, ss, ('suite-conf', 'no-conf'), all_p, ways_k, (None,), 1800))
+        obs.append(k6_ob('K6:act:ways:%d' % i, ss, ('suite-conf', 'no-conf'), all_p, ways_k, (None,), 900))
     obs.append(_refute(k6_ob('K6:act:seeded-oracle-error:late-definition-visible',
                              [sl['file:argument'], sl['source:line'], sl['command:stdin']], ('case-conf',), all_p,
                              [kl['string']], (None,), 300, oracle_bug='late-is-visible')))
